@@ -9,7 +9,7 @@ CORR_MODULES = ["Entity.C36Corr"]
 PREFIX = "C36"
 CASE_TYPE = "ent_case"
 HARNESS = "entity"
-KNOWN = {1: "C36-cft-not-contained", 2: "C36-topic-proxy-by-name"}
+KNOWN = {2: "C36-topic-proxy-by-name"}
 RULE = ("one case = one scenario of 10-60 public-API calls on the simulated stack (create/delete of participants, "
         "topics, content filtered topics, publishers, subscribers, writers, readers; deletes in the wrong order, "
         "through the wrong parent, twice; get_qos/set_qos/enable/matched-status/create-child through live and "
@@ -24,9 +24,10 @@ TRUSTED = ["theories/Entity/EntityModel.v is a hand transcription of dcps_partic
            "the spec-level tracker of Entity/C36Corr.v (which proxies denote live entities) is the oracle"]
 ASSUMPTIONS = ["topic names used by the scenarios are never built-in topic names",
                "Publisher/Subscriber::delete_contained_entities and ::enable are todo!() in dds_async and are not called",
-               "content filtered topics are outside the claim (known finding C36-cft-not-contained); a topic proxy "
-               "of a deleted topic whose name was created again reaches the new topic (known finding "
-               "C36-topic-proxy-by-name)"]
+               "a topic proxy of a deleted topic whose name was created again reaches the new topic (known finding "
+               "C36-topic-proxy-by-name); content filtered topics are resolved by name too: the scenarios give every "
+               "content filtered topic of a participant its own name (create_contentfilteredtopic does not refuse a "
+               "second one of the same name)"]
 
 
 def probe(r, m, kind, i):
@@ -79,11 +80,18 @@ def scenario(r, style):
             m.E(sd, g, t)
         elif k < 0.45 and style == "cft" and m.topics:
             t = r.randrange(len(m.topics))
-            m.CFT(m.topics[t]["p"] if r.random() < 0.9 else rp(), r.randint(1, 3), t)
+            next_name[0] += 1
+            m.CFT(m.topics[t]["p"] if r.random() < 0.9 else rp(), next_name[0], t)
         elif k < 0.49 and style == "cft" and m.cfts and m.subs:
             m.RC(r.randrange(len(m.subs)), r.randrange(len(m.cfts)))
-        elif k < 0.52 and style == "cft" and m.cfts:
-            m.delCFT(r.randrange(len(m.cfts)))
+        elif k < 0.54 and style == "cft" and m.cfts:
+            c = r.randrange(len(m.cfts))
+            m.delCFT(c)
+            if r.random() < 0.5:
+                m.delCFT(c)
+            kids = [i for i, e in enumerate(m.rs) if e.get("cft") == m.cfts[c]["name"] and e["p"] == m.cfts[c]["p"]]
+            if kids:
+                probe(r, m, "R", r.choice(kids))
         elif k < 0.62 and (m.ws or m.rs):
             sd = r.choice([s for s in ("PUB", "SUB") if m.eps(s)])
             e = r.randrange(len(m.eps(sd)))
@@ -155,7 +163,7 @@ def gen(r, tier):
     cases = []
     while len(cases) < n:
         k = r.random()
-        style = "cft" if k < 0.12 else ("reuse" if k < 0.24 else "plain")
+        style = "cft" if k < 0.22 else ("reuse" if k < 0.34 else "plain")
         cases.append(scenario(r, style))
     return cases
 
@@ -182,9 +190,15 @@ def corpus():
         # two participants: deleting one leaves the other untouched
         parse_line("P 0 ; P 0 ; T 0 1 ; T 1 1 ; PUB 0 ; PUB 1 ; W 0 0 ; W 1 1 ; delall 0 ; delP 0 ; gq W 1 ; gq PUB 1 ; gq T 1 ; gq W 0 ; "
                    "gq PUB 0 ; gq T 0 ; delP 1 ; delW 1 ; delPUB 1 ; delT 1 ; delP 1"),
-        # known: content filtered topic keeps the participant alive for ever
+        # regression of the former finding C36-cft-not-contained (fixed by 7cc766b): content filtered topics are
+        # contained entities: deleted by delete_contained_entities / delete_contentfilteredtopic, they protect their
+        # related topic and are protected by the readers created on them
         parse_line("P 0 ; T 0 1 ; CFT 0 1 0 ; delall 0 ; delP 0 ; delCFT 0 ; delP 0"),
-        parse_line("P 0 ; T 0 1 ; CFT 0 1 0 ; SUB 0 ; RC 0 0 ; delT 0 ; gq R 0"),
+        parse_line("P 0 ; T 0 1 ; CFT 0 1 0 ; SUB 0 ; RC 0 0 ; delT 0 ; gq R 0 ; delCFT 0 ; gq R 0 ; delP 0 ; delR 0 ; delT 0 ; "
+                   "delCFT 0 ; delCFT 0 ; RC 0 0 ; delT 0 ; gq T 0 ; delSUB 0 ; delP 0 ; gq P 0"),
+        parse_line("P 0 ; T 0 1 ; CFT 0 1 0 ; delP 0 ; delT 0 ; delCFT 0 ; delP 0 ; delT 0 ; delP 0"),
+        parse_line("P 0 ; P 0 ; T 0 1 ; T 1 1 ; CFT 0 1 0 ; CFT 1 2 1 ; SUB 1 ; RC 0 1 ; delall 0 ; delP 0 ; gq R 0 ; delCFT 1 ; "
+                   "delT 1 ; delall 1 ; gq R 0 ; delCFT 1 ; delP 1"),
         # known: stale topic proxy after the name is created again
         parse_line("P 0 ; T 0 1 ; delT 0 ; gq T 0 ; T 0 1 hist=5 ; gq T 0 ; gq T 1 ; delT 0 ; gq T 1"),
     ]
@@ -221,15 +235,17 @@ MANIFEST = {
              "nothing; deleting through the wrong parent fails; delete_contained_entities leaves the participant empty "
              "and delete_participant then succeeds. For ALL histories (induction over the handle invariant shared with "
              "C35): the handle of a deleted entity is never issued again, so operations naming it return AlreadyDeleted "
-             "for ever. Two recorded findings bound the claim: content filtered topics are never removed (a "
-             "participant that created one can never be deleted) and topic proxies are resolved by name (the proxy of "
-             "a deleted topic reaches a later topic of the same name). The model is tied to the code by random "
+             "for ever. Content filtered topics are contained entities (since 7cc766b): they protect their related "
+             "topic, are protected by the readers created on them and go with delete_contained_entities. One recorded "
+             "finding bounds the claim: topic proxies are resolved by name (the proxy of a deleted topic reaches a "
+             "later topic of the same name). The model is tied to the code by random "
              "create/delete/operate scenarios on the real stack in the simulator, compared result by result inside "
              "Coq; a spec-level tracker of live entities is the oracle on the implementation's results."),
     "note": ("Trusted: Coq kernel + vm_compute; hand model EntityModel.v (checked by the correspondence run); simulator "
              "harness; the tracker oracle of C36Corr.v. Axioms: none. Not covered: Publisher/Subscriber::"
-             "delete_contained_entities (todo!() in dds_async), built-in topic names. Known findings "
-             "C36-cft-not-contained, C36-topic-proxy-by-name (patches in proposed_fixes/)."),
+             "delete_contained_entities (todo!() in dds_async), built-in topic names. Known finding "
+             "C36-topic-proxy-by-name (patch in proposed_fixes/); the former finding C36-cft-not-contained was repaired "
+             "by 7cc766b and is kept as regression scenarios."),
     "technique": "Coq proof (state-independent step lemmas + invariant by induction over all mail histories) + "
                  "differential correspondence on the simulated stack with a spec-level tracker oracle evaluated in Coq",
 }
